@@ -108,6 +108,16 @@ FIXED = [
     ("C03", "C03/history-dependent:GopherProtocol/UMNDirHandler", "4de2aba",
      "a request for '<dir>/.' (or '/.'): accepted, listed empty (every child '<dir>/./x' is refused) and that empty listing saved "
      "as the directory cache of the real <dir>: every later client of <dir> got an empty menu until the cache expired (also C10)"),
+    ("C03", "C03/history-dependent:WAPProtocol/UMNDirHandler", "e4f1e64",
+     "a request for '<dir>//': normalised to '<dir>/', listed empty (children '<dir>//x' refused) and saved as the cache of <dir> "
+     "(the same poisoning as '<dir>/.')"),
+    ("C03", "C03/internal:ValueError@logger.py:log_syslog", "f9eb3c7",
+     "logmethod = syslog (the shipped default) and a selector containing NUL: syslog.syslog() raises ValueError while the request "
+     "is being logged, no reply"),
+    ("C03", "C03/internal:ValueError@mbox.py:canhandlerequest", "f1b5709",
+     "'/x.mbox|/MBOX-MESSAGE/<more than 4300 digits>': int() raises ValueError, no reply"),
+    ("C03", "C03/internal:ValueError@scriptexec.py:write", "c29dce8",
+     "a search string containing NUL sent to an executable: 'embedded null byte' from subprocess, no reply"),
     ("C12", "C12/directory-lost:vanishes-after-stat+named.html:error-reply", "b0ad4cc",
      "a child that is stat()ed successfully but cannot be opened (deleted in between, mode 000 under an unprivileged server, EIO) "
      "and whose handler reads it to describe it (.html title, .html.tal, .zip, .gophermap): OSError from getentry() turned the "
@@ -122,6 +132,10 @@ FIXED = [
 
 KNOWN = [
     # (property, key, what fails)
+    ("C03", "C03/directory-reached-through-a-symlink-shares-its-cache-file",
+     "a directory that is also reachable through a symbolic link inside the site (link -> dir): both names share one cache "
+     "file, which stores the selectors of whoever wrote it -- after /link was listed, /dir is listed with /link/... selectors "
+     "(and vice versa) until the cache expires; the links work, the reply depends on an earlier read-only request"),
 ]
 
 
